@@ -357,7 +357,13 @@ void apply(const sim::Op &op) {
     s.alarm->disable(); s.enabled = false; s.expect_local = -1; s.uncertain = false; s.kept_target = -1; s.last_fired_instant = -1;
     sim::trace("disable %d", i);
   } else if (k == "refresh") {
-    if (!s.enabled) return;
+    if (!s.enabled) {
+      // refresh() of an alarm that is not running (never enabled, disabled, a one-shot that has fired) must leave it alone
+      s.alarm->refresh();
+      if (s.alarm->isEnabled()) sim::violation("C20/enabled-by-refresh", sim::fmt("alarm %d reports isEnabled() after refresh() although it was not running", i));
+      sim::probe("refresh_while_not_running");
+      return;
+    }
     s.alarm->refresh();
     s.last_fired_instant = -1;      // refresh() asks for a new search from the current wall time
     model_arm(i, now_local);
